@@ -422,13 +422,16 @@ static long __attribute__((noinline)) delalloc_run(long n, int k) {
 static void __attribute__((noinline)) plain_nodes_build(long base, long n) { for (long i = 0; i < n; i++) { var nd = new(Node, $I(base + i)); (void)nd; } }
 
 /* a heap Tuple one of whose items is NULL (set, push and the constructor accept it): the collector meets it while marking */
+/* (built in a frame of its own: the argument list of new is a compound literal that would otherwise keep the items visible) */
+static void __attribute__((noinline)) tuplenull_build(volatile var* slot) {
+  var a = new(Node, $I(1000)), b = new(Node, $I(1001)), c = new(Node, $I(1002));
+  *slot = new(Tuple, a, NULL, b, NULL, NULL, c);
+}
 static long __attribute__((noinline)) tuplenull_run(volatile var* slot) {
   long bad = 0;
-  var a = new(Node, $I(1000)), b = new(Node, $I(1001));
-  var t = new(Tuple, a, NULL, b);
-  *slot = t;
-  a = NULL; b = NULL; t = NULL;
+  tuplenull_build(slot);
   scrub(); do_collect(0); do_collect(1);
+  if (fin_count[1002]) bad++;
   if (fin_count[1000] || fin_count[1001]) bad++;                     /* reachable through the Tuple */
   *slot = NULL;
   return bad;
@@ -741,7 +744,7 @@ static int __attribute__((noinline)) real_main(int argc, char** argv) {
       ev_begin("bulk"); ev_int("n", 1); ev_int("rooted", 1); ev_int("lost", bad); ev_int("twice", 0); ev_int("stale", 0); ev_int("gone", 0);
       ev_str("exc", hc_exc); ev_int("line", cur_line); ev_end();
     } else if (hc_is(0, "tuplenull")) {
-      volatile long bad = -1; bulkn = 2;
+      volatile long bad = -1; bulkn = 3;
       HC_TRY(bad = tuplenull_run(&ROOTSLOT(30)); scrub(); do_collect(0));
       ev_begin("bulk"); ev_int("n", 2); ev_int("rooted", 1); ev_int("lost", bad); ev_int("twice", 0); ev_int("stale", 0); ev_int("gone", 0);
       ev_str("exc", hc_exc); ev_int("line", cur_line); ev_end();
